@@ -5,7 +5,10 @@ package main
 import (
 	"flag"
 	"fmt"
+	"io"
 	"os"
+
+	"github.com/getlantern/golog"
 
 	"zvh/hk"
 )
@@ -22,6 +25,7 @@ func main() {
 	prop := fs.String("prop", "", "property id")
 	seed := fs.Uint64("seed", 1, "seed")
 	n := fs.Int("n", 100, "number of generated cases")
+	from := fs.Int("from", 0, "index of the first case")
 	tier := fs.String("tier", "quick", "tier")
 	mode := fs.String("mode", "", "engine mode")
 	replay := fs.String("replay", "", "replay file")
@@ -29,13 +33,16 @@ func main() {
 	out := fs.String("out", "-", "result file")
 	nomodel := fs.Bool("nomodel", false, "do not start the model driver")
 	fs.Parse(os.Args[2:])
+	if os.Getenv("ZVH_LOG") == "" {
+		golog.SetOutputs(io.Discard, io.Discard)
+	}
 	eng, ok := engines[name]
 	if !ok {
 		fmt.Fprintf(os.Stderr, "unknown engine %s\n", name)
 		os.Exit(64)
 	}
 	res := hk.NewResult(name, *prop, *tier, *seed)
-	ctx := &hk.RunCtx{Prop: *prop, Tier: *tier, Seed: *seed, N: *n, Res: res, Replay: *replay, Corpus: *corpus, Mode: *mode}
+	ctx := &hk.RunCtx{Prop: *prop, Tier: *tier, Seed: *seed, N: *n, From: *from, Res: res, Replay: *replay, Corpus: *corpus, Mode: *mode}
 	if !*nomodel {
 		m, err := hk.StartModel()
 		if err != nil {
